@@ -637,6 +637,14 @@ func lockMintLevel(r *core.Run, kind, id string) {
 			_, serr := env.Swap(inputs, bms)
 			r.Eval(sig, true)
 			wit := map[string]any{"config": c.Desc(), "inputs": inputs, "outputs": bms}
+			switch {
+			case serr == nil:
+				r.Count("mint_level_swaps_accepted", 1)
+			case allAuth && (!anySigAll || (sameCond && outsAuth)):
+				r.Count("mint_level_swaps_refused_although_authorised", 1)
+			default:
+				r.Count("mint_level_swaps_refused_unauthorised", 1)
+			}
 			if serr == nil {
 				if !allAuth {
 					r.Violate(fmt.Sprintf("mint:swap-accepted-unauthorised:%s:%s:%s", class, cfgShape(c), pos), "Swap accepted a locked input whose witness does not satisfy the lock (class "+class+")", sig, wit)
